@@ -15,8 +15,8 @@
    * int32: the code computes + - * and unary - in int64 and range-checks (after the `fix:`
      commits), so the model computes in Z and range-checks; `^` goes through float64
      math.Pow, exact below 2^53 and monotone above, modelled as exact integer power.
-   * Not modelled: ModuleSeq (Heap's permutations; known finding), ModuleSelectSeq (panics
-     "implement me"; known finding).
+   * ModuleSeq (Heap's permutations) and ModuleSelectSeq (panics "implement me") are modelled as
+     the code runs; both are known findings (Proofs: seq_refuted, selectseq_refuted).
    The code modelled is the tree after the `fix:` commits listed in known_findings/C03.json. *)
 From PGV Require Export Base.Value C05.Model.
 Open Scope Z_scope.
@@ -44,6 +44,13 @@ Definition AsFunction (v : value) : res (list (value * value)) := match v with V
 Definition MinInt32 : Z := -2147483648.
 Definition MaxInt32 : Z := 2147483647.
 Definition in_int32 (z : Z) : bool := (MinInt32 <=? z) && (z <=? MaxInt32).
+
+Fixpoint list_set_v (l : list value) (n : nat) (x : value) : list value :=
+  match l, n with
+  | [], _ => []
+  | _ :: r, O => x :: r
+  | y :: r, S n' => y :: list_set_v r n' x
+  end.
 
 Definition MakeBool (b : bool) : value := VBool b.
 Definition MakeNumber (z : Z) : value := VNum z.
@@ -178,6 +185,37 @@ Definition ModuleIsFiniteSet (v : value) : res value := do _ <- AsSet v; Ok (VBo
 (* int32(len): exact below 2^31 members *)
 Definition ModuleCardinality (v : value) : res value :=
   do s <- AsSet v; Ok (MakeNumber (Z.of_nat (List.length s))).
+
+(* ModuleSeq: NOT Seq(S) — the code enumerates the permutations of the members with Heap's
+   algorithm (known finding seq-enumerated); modelled as the code runs: `elems` is the mutable
+   slice, `acc` the builder *)
+Definition swap (l : list value) (i j : nat) : list value :=
+  list_set_v (list_set_v l i (nth j l VDefault)) j (nth i l VDefault).
+
+Fixpoint generatePermutations (k : nat) (st : list value * list value) : list value * list value :=
+  match k with
+  | O => st
+  | S k' =>
+      match k' with
+      | O => (fst st, set_add (snd st) (VTup (fst st)))          (* k == 1: store a new tuple *)
+      | S _ =>
+          fold_left (fun st' i =>
+                       let elems := fst st' in
+                       let elems' := if Nat.even k then swap elems i k' else swap elems 0 k' in
+                       generatePermutations k' (elems', snd st'))
+                    (seq 0 k') (generatePermutations k' st)
+      end
+  end.
+
+Definition ModuleSeq (v : value) : res value :=
+  do elems <- AsSet v;
+  match elems with
+  | [] => Ok (build_set [VTup []])
+  | _ => Ok (VSet (snd (generatePermutations (List.length elems) (elems, []))))
+  end.
+
+(* ModuleSelectSeq: panic("implement me") — a plain string, not an ErrTLAType (known finding) *)
+Definition ModuleSelectSeq (a b : value) : res value := Panic.
 
 Definition ModuleLen (v : value) : res value :=
   do t <- AsTuple v; Ok (MakeNumber (Z.of_nat (List.length t))).
@@ -361,9 +399,9 @@ Fixpoint FunctionSubstitution (source : value) (subs : list (list value * (value
 
 (* ------------------------------------------------------------------ the closure library of the check *)
 Inductive pcl := PTrue | PFalse | PIsNum | PGt (c : value) | PEq (c : value) | PNeq (c : value)
-               | PIn (c : value) | PLt2 | PEq2 | PAsBool.
+               | PIn (c : value) | PLt2 | PEq2 | PAsBool | PTupLt.
 Inductive bcl := BId | BConst (c : value) | BTuple | BPlus (c : value) | BSingle | BIsNum
-               | BMod (c : value) | BLast.
+               | BMod (c : value) | BLast | BTupSwap.
 
 Definition arg0 (a : list value) : value := hd VDefault a.
 Definition arg1 (a : list value) : value := hd VDefault (tl a).
@@ -380,6 +418,10 @@ Definition pred_of (p : pcl) : predT := fun a =>
   | PLt2 => do v <- ModuleLessThanSymbol (arg0 a) (arg1 a); AsBool v
   | PEq2 => do v <- ModuleEqualsSymbol (arg0 a) (arg1 a); AsBool v
   | PAsBool => AsBool (arg0 a)
+  | PTupLt =>          (* \A <<x, y>> \in S : x < y  as emitted: args[0].ApplyFunction(MakeNumber(i)) *)
+      do x <- ApplyFunction (arg0 a) (MakeNumber 1);
+      do y <- ApplyFunction (arg0 a) (MakeNumber 2);
+      do v <- ModuleLessThanSymbol x y; AsBool v
   end.
 
 Definition body_of (b : bcl) : bodyT := fun a =>
@@ -392,6 +434,10 @@ Definition body_of (b : bcl) : bodyT := fun a =>
   | BIsNum => Ok (VBool (match arg0 a with VNum _ => true | _ => false end))
   | BMod c => ModulePercentSymbol (arg0 a) c
   | BLast => Ok (last a VDefault)
+  | BTupSwap =>
+      do x <- ApplyFunction (arg0 a) (MakeNumber 1);
+      do y <- ApplyFunction (arg0 a) (MakeNumber 2);
+      Ok (VTup [y; x])
   end.
 
 (* ------------------------------------------------------------------ correspondence check *)
@@ -402,7 +448,8 @@ Inductive call :=
 | CLen | CConcat | CAppend | CHead | CTail | CSubSeq | CColonGt | CAtAt | CDomain | CApply | CSelectElement
 | CMakeSet | CMakeTuple | CMakeRecord | CMakeRecordSet | CMakeFunctionSet | CCrossProduct
 | CForall (p : pcl) | CExists (p : pcl) | CSetRefinement (p : pcl) | CSetComprehension (b : bcl)
-| CMakeFunction (b : bcl) | CChoose (p : pcl) | CExcept (subs : list (list value * bcl)).
+| CMakeFunction (b : bcl) | CChoose (p : pcl) | CExcept (subs : list (list value * bcl))
+| CSeq | CSelectSeq.
 
 Fixpoint pairs_of (l : list value) : list (value * value) :=
   match l with
@@ -471,6 +518,8 @@ Definition run_call (c : call) (a : list value) : res value :=
   | CSetComprehension b => SetComprehension a (body_of b)
   | CMakeFunction b => MakeFunction a (body_of b)
   | CChoose p => Choose (a0 a) (pred_of p)
+  | CSeq => ModuleSeq (a0 a)
+  | CSelectSeq => ModuleSelectSeq (a0 a) (a1 a)
   | CExcept subs => FunctionSubstitution (a0 a) (map (fun s => (fst s, fun anchor => body_of (snd s) [anchor])) subs)
   end.
 
